@@ -110,6 +110,10 @@ func VerifC13_Ops() {
 	w.run(op)
 	verifrt.TraceEnd()
 	verifrt.Assert(verifrt.LocksHeld() == 0, "every lock released when the operation returns")
+	if op != 5 {
+		ok, _ := w.c.crlRepository.VerifConsistent()
+		verifrt.Assert(ok, "the repository is consistent when the operation returns")
+	}
 	verifrt.DropSpawned()
 	verifrt.Reach(opNames[op])
 }
@@ -136,5 +140,9 @@ func VerifC13_Interleave() {
 	verifrt.Assert(verifrt.LocksHeld() == 0, "every lock released when both operations have returned")
 	verifrt.RunSpawned()
 	verifrt.Assert(verifrt.LocksHeld() == 0, "every lock released after the background work")
+	if a != 5 && b != 5 {
+		ok, _ := w.c.crlRepository.VerifConsistent()
+		verifrt.Assert(ok, "the repository is consistent after the interleaving (every entry has loader and store; loaded entries hold a list)")
+	}
 	verifrt.Reach("interleaved")
 }
